@@ -28,6 +28,7 @@ ASSUMPTIONS = [
 REQUIRED_COUNTERS = ["grid_init_postconditions", "grid_refine_postconditions", "tail_probability_checks",
                      "probability_step_checks", "time_grid_checks"]
 MIN_NONTRIVIAL = {"quick": 60, "thorough": 400}
+THOROUGH_ROUNDS = 20      # the thorough tier runs the generators this many times (different seeds)
 
 
 def gen_cases(tier, seed):
